@@ -10,24 +10,34 @@ from .containers import RealContainers
 from .refmodels import RefPQ, RefPos
 
 PROP = "C17"
-LEAN_TARGETS = ["Asynkit.Props.C17", "Asynkit.Lemmas.GenEq", "Asynkit.Lemmas.GenEqPQ", "Asynkit.Lemmas.GenEqPosPQ"]
-PROPS_FILES = ["Asynkit/Props/C17.lean", "Asynkit/Lemmas/GenEq.lean", "Asynkit/Lemmas/GenEqPQ.lean", "Asynkit/Lemmas/GenEqPosPQ.lean"]
+LEAN_TARGETS = ["Asynkit.Props.C17", "Asynkit.Lemmas.GenEq", "Asynkit.Lemmas.GenEqPQ", "Asynkit.Lemmas.GenEqPosPQ",
+                "Asynkit.Lemmas.GenEqHeapq"]
+PROPS_FILES = ["Asynkit/Props/C17.lean", "Asynkit/Lemmas/GenEq.lean", "Asynkit/Lemmas/GenEqPQ.lean", "Asynkit/Lemmas/GenEqPosPQ.lean",
+               "Asynkit/Lemmas/GenEqHeapq.lean"]
 DRIVERS = ["PQ"]
 TRUSTED = [
-    "Lean 4.33 kernel; axioms ⊆ {propext, Classical.choice, Quot.sound} (audited per theorem each run)",
-    "hand-written models Asynkit/Model/{Heap,PQ,PosPQ}.lean, tied to src/asynkit/tools.py and "
-    "experimental/priority.py by the differential correspondence of this run (lean/Drivers/PQ.lean)",
-    "translator/py2lean.py for PriEntry.__lt__ / PriorityValue.__lt__ (Gen definitions proved equal to the model's)",
-    "translator/pq2lean.py + Asynkit/Model/PyRt.lean: every method of tools.PriorityQueue is re-translated "
-    "statement by statement on each run and proved equal to Model/PQ.lean (Lemmas/GenEqPQ.lean), so for "
-    "that class the hand-written model is no longer trusted, only the translator's reading of Python "
-    "(lists, for/break/else, heapq calls, aliasing by index; callables and == on objects are pure)",
-    "translator/pospq2lean.py re-translates every method of PosPriorityQueue from the source on each run "
-    "(Gen/PosPQ.lean, over the PQ model's operations); Lemmas/GenEqPosPQ.lean proves each equal to Model/PosPQ "
-    "(trusted: the statement-level translator, the self._pq.<m> -> PQ.<m> binding, by-value PriorityValue objects)",
-    "CPython heapq meets its documented contract (HeapLib.Lawful); the executable model transcribes "
-    "heapq's sift loops and is compared array-for-array with the real _pq (layout statistic)",
-    "list.sort is a stable sort by __lt__",
+    'Lean 4.33 kernel; axioms ⊆ {propext, Classical.choice, Quot.sound} (audited per theorem each run)',
+    "hand-written: the reference "
+    'specifications the refinement theorems relate the classes to; Model/{PQ,PosPQ}.lean are no longer trusted as'
+    ' transcriptions (next two entries) but are still run against the code by the differential correspondence of '
+    'this run (lean/Drivers/PQ.lean)',
+    'translated, not trusted: PriEntry.__lt__ (translator/py2lean.py -> Gen/PriEntry.lean; Lemmas/GenEq.lean, 1 '
+    'theorem); PriorityValue.priority/__lt__ are part of the PosPriorityQueue unit below',
+    'translated, not trusted: every method of tools.PriorityQueue, statement by statement on each run '
+    '(translator/pq2lean.py -> Gen/PQ.lean), proved equal to Model/PQ.lean for every heap library, comparison and'
+    " state (Lemmas/GenEqPQ.lean, 29 theorems); trusted there: Model/PyRt.lean's reading of Python (lists with "
+    'negative indices, for/break/else, list.sort stable, heapq calls, aliasing by index; callables and == on '
+    'objects are pure)',
+    'translated, not trusted: every method of PosPriorityQueue and PriorityValue on each run '
+    "(translator/pospq2lean.py -> Gen/PosPQ.lean, over the PQ model's operations), proved equal to "
+    'Model/PosPQ.lean (Lemmas/GenEqPosPQ.lean, 41 theorems); trusted there: Model/PosPQRt.lean (the self._pq.<m> '
+    '-> PQ.<m> binding, PriorityValue objects by value, fuel-bounded while loops shown never to run out)',
+    "translated, not trusted (stdlib): heapq._siftdown/_siftup/heappush/heappop/heapify are re-translated on every run "
+    "from heapq.py of the running interpreter (translator/heapq2lean.py -> Gen/Heapq.lean, sha256 + version recorded) and "
+    "proved equal to the model's Cpy.* (Lemmas/GenEqHeapq.lean), which cpyHeap_lawful proves lawful; trusted: the C "
+    "accelerator _heapq computes what heapq.py computes — tested on every run by the layout statistic (real _pq vs model "
+    "array) and by the differential stream heapq_c_vs_py",
+    'list.sort is a stable sort by __lt__',
 ]
 ASSUMPTIONS = [
     "objects stored in a queue are distinguishable (duplicates only in the model-vs-code stream)",
@@ -128,6 +138,7 @@ def gen_pos(rng, n_ops):
     sh = RefPos()
     gp = {}
     nxt = itertools.count(1)
+    opened = False
     for _ in range(n_ops):
         live = sh.objs()
         r = rng.random()
@@ -180,15 +191,31 @@ def gen_pos(rng, n_ops):
                 lines.append(f"pos 0 gp {o} {gp[o]}")
             lines.append("pos 0 reschedall")
             sh.reschedule_all(lambda o: gp.get(o, 0))
-        elif r < 0.90:
+        elif r < 0.885:
             lines.append("pos 0 " + rng.choice(["iter", "len", "bool", f"in {target()}"]))
+        elif r < 0.90:
+            lines.append(f"pos 0 iteropen {rng.randint(1, 3)}")
+            opened = True
         elif r < 0.92:
             lines.append("pos 0 clear")
             sh.clear()
         else:
             lines.append("pos 0 drain")
     lines.append("pos 0 drain")
+    if opened:
+        lines += ["pos 0 len", "pos 0 iterclose", "pos 0 drain"]
     return lines
+
+
+def to_model(ln):
+    """the Lean driver has no notion of an iterator object: an iteration kept open is an `iter`
+    whose first k items are compared, closing it is a no-op"""
+    t = ln.split()
+    if len(t) > 2 and t[2] == "iteropen":
+        return f"{t[0]} {t[1]} iter"
+    if len(t) > 2 and t[2] == "iterclose":
+        return f"{t[0]} {t[1]} len"
+    return ln
 
 
 # ---------------------------------------------------------------------------------------
@@ -411,6 +438,17 @@ def oracle_pos(lines, outs, tags):
             exp = f"b {1 if len(q) else 0}"
         elif op == "in":
             exp = f"b {1 if q.has(int(a[0])) else 0}"
+        elif op == "iterclose":
+            exp = "ok"
+        elif op == "iteropen":
+            tags.add("iterator-kept-open")
+            objs = [int(x) for x in out[5:].split(",") if x] if out.startswith("list") else None
+            k = min(int(a[0]), len(q))
+            if objs is None or len(objs) != k or len(set(objs)) != k or any(not q.has(o) for o in objs):
+                if judged:
+                    return idx, f"the first {k} entries of the pop order", out, "partial iteration returned something else"
+                return None
+            continue
         elif op in ("iter", "drain"):
             objs = [int(x) for x in out[5:].split(",") if x] if out.startswith("list") else None
             if objs is None:
@@ -458,7 +496,7 @@ def shrink(lines, only_lt=False):
     return head + core.ddmin(body, fails)
 
 
-OPCLASS = {"append": "append", "appendpri": "append", "add": "add", "extend": "add",
+OPCLASS = {"iteropen": "iterate-partially", "iterclose": None, "append": "append", "appendpri": "append", "add": "add", "extend": "add",
            "drain": None, "popleft": "pop", "iter": None, "pop": "pop", "popitem": "pop",
            "peek": None, "peekitem": None, "len": None, "bool": None, "in": None, "items": None,
            "sorteditems": None, "layout": None, "seq": None, "new": None, "gp": None,
@@ -497,7 +535,7 @@ def explore(ctx, cases, only_lt=False, label="", oracle=True):
                           theorem="Asynkit.C17.pq_refines_spec / pos_refines_list")
         spans.append((len(all_lines) + 1, len(lines)))
         all_lines.append("reset")
-        all_lines.extend(lines)
+        all_lines.extend(to_model(ln) for ln in lines)
         reals.append(outs)
     if not ctx.lean_ok or not cases:
         return
@@ -513,6 +551,11 @@ def explore(ctx, cases, only_lt=False, label="", oracle=True):
                 layout_n += 1
                 layout_ok += r == m
                 continue
+            if ln.split()[2] == "iterclose":
+                continue
+            if ln.split()[2] == "iteropen":
+                k = len([x for x in r[5:].split(",") if x]) if r.startswith("list") else 0
+                m = "list " + ",".join([x for x in m[5:].split(",") if x][:k]) if m.startswith("list") else m
             if r != m:
                 if reported < 3:
                     ctx.disagreement(f"{label}model and implementation answer `{ln}` differently",
@@ -626,6 +669,9 @@ def exhaustive_pos(maxlen):
 
 def run(ctx):
     rng = ctx.rng
+    # what is left to trust about heapq after GenEqHeapq: the C accelerator vs heapq.py, array for array
+    from . import c17_heapq
+    c17_heapq.run(ctx, *((3000, 60) if ctx.thorough() else (300, 60)))
     explore(ctx, corpus_cases(), label="corpus: ")
     explore(ctx, list(shape_stream()), label="heap shapes: ")
     if ctx.thorough():
